@@ -327,6 +327,8 @@ class PeerConn:
                         pass
                 elif op == "send":
                     self.send(step[1])
+                elif op == "respond":
+                    self.send(step[1](bytes(self.received)))
                 elif op == "sleep":
                     await asyncio.sleep(step[1])
                 elif op == "close":
